@@ -202,7 +202,7 @@ pub fn run(ctx: &Ctx) -> i32 {
     }
 
     // EVR triples: epoch defaulting and composition
-    let epochs = ["", "0", "1", "00", "10", "a"];
+    let epochs = ["", "0", "1", "00", "01", "10", "a", "0a", "a0", ".", "0.", "~", "0~", "4294967296"];
     let vers = all_strings(&["1", "a", "~", "."], if ctx.thorough() { 3 } else { 2 });
     let rels = all_strings(&["1", "2", "^"], if ctx.thorough() { 2 } else { 1 });
     let mut evrs: Vec<(String, String, String)> = vec![];
